@@ -1,6 +1,1125 @@
-//! C09 monitor (not built yet)
-use vcore::{Args, Report};
+//! C09 — the send buffer keeps every unacknowledged byte and offers it for resending.
+//!
+//! Reference model: one colour per written byte (Pending / Flight / Lost / Recved) plus the
+//! content bytes (position-derived PRF).  Three legs drive the *real* code with one op grammar:
+//!   * `sndbuf`  : `qrecovery::send::SendBuf` directly, every observable compared after every op,
+//!                 `pick_up` predicted exactly (range, fresh flag, data);
+//!   * `crypto`  : `CryptoStream` writer/outgoing (`try_load_data_into`, force = resend_flighting),
+//!                 every emitted CRYPTO frame predicted exactly;
+//!   * `stream`  : one stream of a real `DataStreams` (Writer / Outgoing / FIN states), see
+//!                 `c09_stream.rs`-like section at the bottom (property-level clauses).
+//! Ack / loss reports only ever name ranges (frames) that an earlier pick-up returned, in any
+//! order and any number of times, exactly like the sent-journal feeds them back in production.
+use std::{
+    collections::BTreeSet,
+    ops::Range,
+    pin::Pin,
+    task::{Context, Poll},
+};
 
-pub fn run(_args: &Args, rep: &mut Report) {
-    rep.inconclusive("monitor not built yet");
+use bytes::Bytes;
+use qbase::{
+    frame::CryptoFrame,
+    varint::VarInt,
+};
+use qrecovery::{crypto::CryptoStream, send::SendBuf};
+use serde_json::{Value, json};
+use tokio::io::AsyncWrite;
+use vcore::{Args, Report, Rng};
+
+pub(crate) const P: u8 = 0;
+pub(crate) const F: u8 = 1;
+pub(crate) const L: u8 = 2;
+pub(crate) const R: u8 = 3;
+const CNAME: [&str; 4] = ["pending", "flight", "lost", "recved"];
+
+#[inline]
+pub(crate) fn content(seed: u64, i: u64) -> u8 {
+    vcore::prf_byte(seed, 0x09, i)
+}
+
+pub(crate) fn content_bytes(seed: u64, off: u64, len: usize) -> Bytes {
+    let mut v = vec![0u8; len];
+    vcore::prf_fill(seed, 0x09, off, &mut v);
+    Bytes::from(v)
+}
+
+fn varint_len(x: u64) -> usize {
+    if x < 1 << 6 {
+        1
+    } else if x < 1 << 14 {
+        2
+    } else if x < 1 << 30 {
+        4
+    } else {
+        8
+    }
+}
+
+/// How much a pick-up may take at a given start offset.
+#[derive(Clone, Copy, Debug, PartialEq)]
+pub enum Pred {
+    /// predicate returns None (no room in the packet)
+    Deny,
+    /// constant allowance
+    Cap(usize),
+    /// like a real frame header: room - 2 - varint(offset) (None if nothing is left)
+    Frame(usize),
+}
+
+impl Pred {
+    fn eval(self, off: u64) -> Option<usize> {
+        match self {
+            Pred::Deny => None,
+            Pred::Cap(c) => Some(c),
+            Pred::Frame(c) => {
+                let least = 2 + if off != 0 { varint_len(off) } else { 0 };
+                if c <= least { None } else { Some(c - least) }
+            }
+        }
+    }
+    fn to_json(self) -> Value {
+        match self {
+            Pred::Deny => json!(["deny"]),
+            Pred::Cap(c) => json!(["cap", c]),
+            Pred::Frame(c) => json!(["frame", c]),
+        }
+    }
+    fn from_json(v: &Value) -> Pred {
+        match v[0].as_str().unwrap() {
+            "deny" => Pred::Deny,
+            "cap" => Pred::Cap(v[1].as_u64().unwrap() as usize),
+            _ => Pred::Frame(v[1].as_u64().unwrap() as usize),
+        }
+    }
+}
+
+#[derive(Clone, Debug, PartialEq)]
+pub enum Op {
+    Write(usize),
+    Extend(u64),
+    Pick { pred: Pred, flow: usize },
+    Ack(u64, u64),
+    Loss(u64, u64),
+    Resend,
+    /// forget_sent_state followed by the window revision (production: revise_max_stream_data(true, max))
+    Forget(u64),
+    /// crypto leg: try_load_data_into(packet of `cap` bytes, force)
+    Load { cap: usize, force: bool },
+}
+
+impl Op {
+    pub fn to_json(&self) -> Value {
+        match self {
+            Op::Write(n) => json!(["write", n]),
+            Op::Extend(m) => json!(["extend", m]),
+            Op::Pick { pred, flow } => json!(["pick", pred.to_json(), if *flow == usize::MAX { json!("max") } else { json!(flow) }]),
+            Op::Ack(a, b) => json!(["ack", a, b]),
+            Op::Loss(a, b) => json!(["loss", a, b]),
+            Op::Resend => json!(["resend"]),
+            Op::Forget(m) => json!(["forget", m]),
+            Op::Load { cap, force } => json!(["load", cap, force]),
+        }
+    }
+    pub fn from_json(v: &Value) -> Op {
+        match v[0].as_str().unwrap() {
+            "write" => Op::Write(v[1].as_u64().unwrap() as usize),
+            "extend" => Op::Extend(v[1].as_u64().unwrap()),
+            "pick" => Op::Pick {
+                pred: Pred::from_json(&v[1]),
+                flow: v[2].as_u64().map(|x| x as usize).unwrap_or(usize::MAX),
+            },
+            "ack" => Op::Ack(v[1].as_u64().unwrap(), v[2].as_u64().unwrap()),
+            "loss" => Op::Loss(v[1].as_u64().unwrap(), v[2].as_u64().unwrap()),
+            "resend" => Op::Resend,
+            "forget" => Op::Forget(v[1].as_u64().unwrap()),
+            _ => Op::Load { cap: v[1].as_u64().unwrap() as usize, force: v[2].as_bool().unwrap() },
+        }
+    }
+    fn hash_into(&self, h: &mut u64) {
+        let s = self.to_json().to_string();
+        for b in s.bytes() {
+            *h = (*h ^ b as u64).wrapping_mul(0x100000001b3);
+        }
+    }
+}
+
+/// What the model expects a pick-up to return.
+#[derive(Debug, Clone, PartialEq)]
+pub(crate) enum Expect {
+    /// nothing offerable at all (every byte in the map is Flight/Recved, or Pending with flow 0)
+    Nothing,
+    /// lowest offerable byte is at `start` (colour `col`) but the predicate gives no room there
+    NoRoom { start: u64, col: u8 },
+    Take { start: u64, end: u64, col: u8 },
+}
+
+#[derive(Default)]
+pub(crate) struct Stats {
+    pub picks_ok: u64,
+    pub picks_err: u64,
+    pub fresh_bytes: u64,
+    pub reoffered_bytes: u64,
+    pub acks: u64,
+    pub losses: u64,
+    pub ack_after_loss: u64,
+    pub loss_after_ack: u64,
+    pub repeated_ack: u64,
+    pub mixed_range_ops: u64,
+    pub completions: u64,
+    pub resends: u64,
+    pub forgets: u64,
+    pub over_window_writes: u64,
+    pub short_at_old_boundary: u64,
+    pub step_checks: u64,
+    pub patterns: BTreeSet<u64>,
+    pub contexts: BTreeSet<u64>,
+    pub max_runs: u64,
+}
+
+/// Per-byte colour model of one send buffer.
+pub(crate) struct Model {
+    pub seed: u64,
+    pub written: u64,
+    pub max_data: u64,
+    /// colour of every byte inside the map: len = min(written, max_data) as of the last write/extend
+    pub col: Vec<u8>,
+    /// how many times each byte was handed out as fresh (since the last forget)
+    pub fresh: Vec<u8>,
+}
+
+impl Model {
+    pub fn new(seed: u64, max_data: u64) -> Self {
+        Model { seed, written: 0, max_data, col: vec![], fresh: vec![] }
+    }
+    fn grow(&mut self) {
+        let size = self.written.min(self.max_data) as usize;
+        if size > self.col.len() {
+            self.col.resize(size, P);
+            self.fresh.resize(size, 0);
+        }
+    }
+    pub fn write(&mut self, n: usize) {
+        self.written += n as u64;
+        self.grow();
+    }
+    pub fn extend(&mut self, max: u64) {
+        self.max_data = max;
+        self.grow();
+    }
+    pub fn forget(&mut self) {
+        self.col.clear();
+        self.fresh.clear();
+        self.max_data = 0;
+    }
+    pub fn sent(&self) -> u64 {
+        // Pending bytes always form a suffix (they are handed out lowest first)
+        self.col.iter().position(|c| *c == P).unwrap_or(self.col.len()) as u64
+    }
+    pub fn all_rcvd(&self) -> bool {
+        self.col.len() as u64 == self.written && self.col.iter().all(|c| *c == R)
+    }
+    pub fn any_rcvd(&self) -> bool {
+        self.col.iter().any(|c| *c == R)
+    }
+    pub fn run_end(&self, i: usize) -> usize {
+        let c = self.col[i];
+        let mut e = i;
+        while e < self.col.len() && self.col[e] == c {
+            e += 1;
+        }
+        e
+    }
+    pub fn lowest_offerable(&self, flow: usize) -> Option<usize> {
+        self.col.iter().position(|c| *c == L || (*c == P && flow > 0))
+    }
+    pub fn expect(&self, pred: &dyn Fn(u64) -> Option<usize>, flow: usize) -> Expect {
+        let Some(i) = self.lowest_offerable(flow) else { return Expect::Nothing };
+        let c = self.col[i];
+        let Some(avail) = pred(i as u64) else { return Expect::NoRoom { start: i as u64, col: c } };
+        let allow = if c == L { avail } else { avail.min(flow) };
+        let end = self.run_end(i).min(i.saturating_add(allow));
+        Expect::Take { start: i as u64, end: end as u64, col: c }
+    }
+    pub fn take(&mut self, r: Range<u64>) {
+        for i in r.start as usize..r.end as usize {
+            if self.col[i] == P {
+                self.fresh[i] = self.fresh[i].saturating_add(1);
+            }
+            self.col[i] = F;
+        }
+    }
+    /// (distinct colours inside, context hash)
+    fn context(&self, r: &Range<u64>, kind: u64) -> (u32, u64) {
+        let mut h = 0xcbf29ce484222325u64 ^ kind;
+        let mut mask = 0u32;
+        let before = if r.start == 0 { 7 } else { self.col[r.start as usize - 1] };
+        h = (h ^ before as u64).wrapping_mul(0x100000001b3);
+        let mut prev = 9u8;
+        for i in r.start as usize..(r.end as usize).min(self.col.len()) {
+            mask |= 1 << self.col[i];
+            if self.col[i] != prev {
+                prev = self.col[i];
+                h = (h ^ prev as u64).wrapping_mul(0x100000001b3);
+            }
+        }
+        let after = if (r.end as usize) < self.col.len() { self.col[r.end as usize] } else { 7 };
+        h = (h ^ (after as u64) << 4).wrapping_mul(0x100000001b3);
+        (mask.count_ones(), h)
+    }
+    pub fn ack(&mut self, r: &Range<u64>, st: &mut Stats) {
+        let (n, h) = self.context(r, 1);
+        st.contexts.insert(h);
+        if n > 1 {
+            st.mixed_range_ops += 1;
+        }
+        let mut any_l = false;
+        let mut all_r = !r.is_empty();
+        for i in r.start as usize..r.end as usize {
+            any_l |= self.col[i] == L;
+            all_r &= self.col[i] == R;
+            self.col[i] = R;
+        }
+        st.acks += 1;
+        st.ack_after_loss += any_l as u64;
+        st.repeated_ack += all_r as u64;
+    }
+    pub fn loss(&mut self, r: &Range<u64>, st: &mut Stats) {
+        let (n, h) = self.context(r, 2);
+        st.contexts.insert(h);
+        if n > 1 {
+            st.mixed_range_ops += 1;
+        }
+        let mut any_r = false;
+        for i in r.start as usize..r.end as usize {
+            any_r |= self.col[i] == R;
+            if self.col[i] == F {
+                self.col[i] = L;
+            }
+        }
+        st.losses += 1;
+        st.loss_after_ack += any_r as u64;
+    }
+    pub fn resend(&mut self) {
+        for c in self.col.iter_mut() {
+            if *c == F {
+                *c = L;
+            }
+        }
+    }
+    pub fn pattern(&self) -> (u64, u64) {
+        let mut h = 0xcbf29ce484222325u64;
+        let mut runs = 0u64;
+        let mut prev = 9u8;
+        for c in &self.col {
+            if *c != prev {
+                prev = *c;
+                runs += 1;
+                h = (h ^ prev as u64).wrapping_mul(0x100000001b3);
+            }
+        }
+        (runs, h)
+    }
+    pub fn shape_string(&self) -> String {
+        let mut s = String::new();
+        let mut i = 0;
+        while i < self.col.len() {
+            let e = self.run_end(i);
+            s.push_str(&format!("{}..{}:{} ", i, e, CNAME[self.col[i] as usize]));
+            i = e;
+        }
+        s
+    }
+}
+
+pub(crate) type Fail = (usize, String, String);
+
+/// Compare a returned (range, fresh, data) with the expectation and apply it to the model.
+/// Returns Err((clause, detail)) on the first divergence.
+pub(crate) fn check_pick(
+    m: &mut Model,
+    exp: &Expect,
+    got: &Result<(Range<u64>, bool, Vec<u8>), String>,
+    st: &mut Stats,
+    cuts: &BTreeSet<u64>,
+) -> Result<(), (String, String)> {
+    match (exp, got) {
+        (Expect::Nothing, Err(_)) | (Expect::NoRoom { .. }, Err(_)) => {
+            st.picks_err += 1;
+            Ok(())
+        }
+        (Expect::Take { start, end, col }, Err(sig)) => {
+            if end == start {
+                // zero allowance: nothing demanded
+                st.picks_err += 1;
+                return Ok(());
+            }
+            Err((
+                format!("pick-missed:{}", CNAME[*col as usize]),
+                format!("pick_up returned Err({sig}) although bytes {start}..{end} are {} and the limits allow them; map: {}", CNAME[*col as usize], m.shape_string()),
+            ))
+        }
+        (_, Ok((range, fresh, data))) => {
+            // (1) only never-sent or lost bytes inside the window may be offered
+            if range.end > m.col.len() as u64 || range.start > range.end {
+                return Err(("offer-window".into(), format!("offered {range:?} but only {} bytes are written inside the window", m.col.len())));
+            }
+            for i in range.start as usize..range.end as usize {
+                if m.col[i] == F || m.col[i] == R {
+                    return Err((
+                        format!("offer-colour:{}", CNAME[m.col[i] as usize]),
+                        format!("offered {range:?} but byte {i} is {}; map: {}", CNAME[m.col[i] as usize], m.shape_string()),
+                    ));
+                }
+            }
+            let (start, end, col) = match exp {
+                Expect::Take { start, end, col } => (*start, *end, *col),
+                Expect::Nothing => {
+                    return Err(("offer-unofferable".into(), format!("offered {range:?} although nothing is offerable under these limits; map: {}", m.shape_string())));
+                }
+                Expect::NoRoom { start, .. } => {
+                    return Err(("offer-noroom".into(), format!("offered {range:?} although the predicate denies offset {start}")));
+                }
+            };
+            // (2) lowest offset first: lost bytes are re-offered before anything higher
+            if range.start != start {
+                return Err((
+                    format!("pick-order:{}-skipped", CNAME[col as usize]),
+                    format!("offered {range:?} but the lowest offerable byte is {start} ({}); map: {}", CNAME[col as usize], m.shape_string()),
+                ));
+            }
+            // (3) extent: to the end of that colour run, clipped by the limits
+            // A shorter offer is legal (the property does not fix the extent) but only when it stops at a
+            // position where an earlier operation cut the map (un-merged neighbours of one colour).
+            let end = if range.end < end && range.end > range.start && cuts.contains(&range.end) {
+                st.short_at_old_boundary += 1;
+                range.end
+            } else {
+                end
+            };
+            if range.end != end {
+                return Err((
+                    if range.end > end { "pick-extent:over-limit".to_string() } else { "pick-extent:short".to_string() },
+                    format!("offered {range:?}, model expects {start}..{end}; map: {}", m.shape_string()),
+                ));
+            }
+            // (4) fresh flag <=> never sent before
+            if *fresh != (col == P) {
+                return Err((
+                    if *fresh { "fresh-flag:retransmission-counted-new".to_string() } else { "fresh-flag:new-data-not-counted".to_string() },
+                    format!("offered {range:?} with is_fresh={fresh} but the bytes were {}", CNAME[col as usize]),
+                ));
+            }
+            // (5) data = original bytes
+            if data.len() as u64 != range.end - range.start {
+                return Err(("data-length".into(), format!("offered {range:?} with {} data bytes", data.len())));
+            }
+            for (k, b) in data.iter().enumerate() {
+                let i = range.start + k as u64;
+                if *b != content(m.seed, i) {
+                    return Err(("data-bytes".into(), format!("offered {range:?}: byte {i} is {:#x}, written {:#x}", b, content(m.seed, i))));
+                }
+            }
+            if col == P {
+                st.fresh_bytes += end - start;
+            } else {
+                st.reoffered_bytes += end - start;
+            }
+            m.take(start..end);
+            // (6) a byte is new data at most once
+            for i in start as usize..end as usize {
+                if m.fresh[i] > 1 {
+                    return Err(("fresh-twice".into(), format!("byte {i} was handed out as fresh data {} times", m.fresh[i])));
+                }
+            }
+            st.picks_ok += 1;
+            Ok(())
+        }
+    }
+}
+
+fn check_observables(m: &Model, buf: &SendBuf, st: &mut Stats) -> Result<(), (String, String)> {
+    st.step_checks += 1;
+    if buf.written() != m.written {
+        return Err(("written".into(), format!("written() = {}, model {}", buf.written(), m.written)));
+    }
+    if buf.sent() != m.sent() {
+        return Err(("sent".into(), format!("sent() = {}, model {}; map: {}", buf.sent(), m.sent(), m.shape_string())));
+    }
+    let rem = m.max_data.saturating_sub(m.written);
+    if buf.remaining_mut() != rem || buf.has_remaining_mut() != (rem > 0) {
+        return Err(("remaining".into(), format!("remaining_mut() = {}, model {}", buf.remaining_mut(), rem)));
+    }
+    if buf.max_data() != m.max_data {
+        return Err(("max-data".into(), format!("max_data() = {}, model {}", buf.max_data(), m.max_data)));
+    }
+    if buf.is_all_rcvd() != m.all_rcvd() {
+        return Err((
+            if buf.is_all_rcvd() { "completion:early".to_string() } else { "completion:missed".to_string() },
+            format!("is_all_rcvd() = {}, model {} (written {}); map: {}", buf.is_all_rcvd(), m.all_rcvd(), m.written, m.shape_string()),
+        ));
+    }
+    Ok(())
+}
+
+/// Generator state shared by the legs: which ops to draw next.
+pub(crate) struct Gen {
+    pub rng: Rng,
+    pub unit: usize,
+    pub total_target: u64,
+    pub style: u64,
+}
+
+impl Gen {
+    pub fn new(mut rng: Rng) -> Self {
+        let unit = match rng.below(4) {
+            0 => rng.range(1, 4),
+            1 => rng.range(2, 16),
+            2 => rng.range(8, 64),
+            _ => rng.range(32, 400),
+        } as usize;
+        let total_target = (unit as u64 * rng.range(4, 40)).min(4096);
+        let style = rng.below(6);
+        Gen { rng, unit, total_target, style }
+    }
+    pub fn size(&mut self) -> usize {
+        match self.rng.below(10) {
+            0 => 1,
+            1 | 2 => self.rng.range(1, (self.unit as u64 * 3).max(1)) as usize,
+            3 => self.unit * 2,
+            4 => self.unit * 4,
+            5 => (self.unit / 2).max(1),
+            _ => self.unit,
+        }
+    }
+    fn pred(&mut self) -> Pred {
+        match self.rng.below(16) {
+            0 => Pred::Deny,
+            1 => Pred::Cap(1),
+            2 => Pred::Cap(1 << 20),
+            3 | 4 => Pred::Frame(self.size() + 3),
+            _ => Pred::Cap(self.size()),
+        }
+    }
+    fn flow(&mut self) -> usize {
+        match self.rng.below(10) {
+            0 => 0,
+            1 => 1,
+            2 | 3 => self.size(),
+            _ => usize::MAX,
+        }
+    }
+    /// next op of the sndbuf leg
+    fn next(&mut self, m: &Model, ranges: &[Range<u64>], allow_forget: bool) -> Op {
+        loop {
+            let k = self.rng.below(100);
+            // style shifts the mix: 0 = balanced, 1 = loss-heavy, 2 = ack-heavy, 3 = window-starved, 4 = big writes, 5 = balanced
+            let (w_write, w_ext, w_pick, w_ack, w_loss) = match self.style {
+                1 => (8, 5, 35, 10, 38),
+                2 => (8, 5, 35, 38, 10),
+                3 => (16, 4, 40, 18, 18),
+                4 => (20, 10, 30, 18, 18),
+                _ => (10, 7, 38, 20, 21),
+            };
+            let mut acc = w_write;
+            if k < acc {
+                if m.written >= self.total_target {
+                    continue;
+                }
+                let n = if self.style == 4 { self.size() * 4 } else { self.size() };
+                return Op::Write(n.max(1));
+            }
+            acc += w_ext;
+            if k < acc {
+                let inc = if self.style == 3 { self.rng.range(0, self.unit as u64) } else { self.rng.range(0, self.unit as u64 * 6) };
+                return Op::Extend(m.max_data + inc);
+            }
+            acc += w_pick;
+            if k < acc {
+                return Op::Pick { pred: self.pred(), flow: self.flow() };
+            }
+            acc += w_ack;
+            if k < acc {
+                if ranges.is_empty() {
+                    continue;
+                }
+                let r = &ranges[self.pick_idx(ranges.len())];
+                return Op::Ack(r.start, r.end);
+            }
+            acc += w_loss;
+            if k < acc {
+                if ranges.is_empty() {
+                    continue;
+                }
+                let r = &ranges[self.pick_idx(ranges.len())];
+                return Op::Loss(r.start, r.end);
+            }
+            if k < acc + 2 {
+                return Op::Resend;
+            }
+            if allow_forget && !m.any_rcvd() && self.rng.chance(1, 3) {
+                let nm = self.rng.range(0, self.total_target);
+                return Op::Forget(nm);
+            }
+        }
+    }
+    fn pick_idx(&mut self, n: usize) -> usize {
+        // recent ranges more often, but any earlier one is possible
+        if self.rng.chance(1, 2) { n - 1 - self.rng.usize(n.min(4)) } else { self.rng.usize(n) }
+    }
+}
+
+pub(crate) enum Source<'a> {
+    Gen { g: Gen, nops: usize, allow_forget: bool, drain: bool },
+    Replay(&'a [Op]),
+}
+
+pub(crate) struct Outcome {
+    pub fail: Option<Fail>,
+    pub ops: Vec<Op>,
+    pub st: Stats,
+}
+
+fn collect(data: &[Bytes]) -> Vec<u8> {
+    let mut v = Vec::new();
+    for d in data {
+        v.extend_from_slice(d);
+    }
+    v
+}
+
+/// One history on a fresh SendBuf.
+fn run_sndbuf(cseed: u64, cap0: u64, mut src: Source) -> Outcome {
+    let mut buf = SendBuf::with_capacity(cap0);
+    let mut m = Model::new(cseed, cap0);
+    let mut st = Stats::default();
+    let mut ops: Vec<Op> = vec![];
+    let mut ranges: Vec<Range<u64>> = vec![];
+    let mut cuts: BTreeSet<u64> = BTreeSet::new();
+    let mut fail: Option<Fail> = None;
+    let mut step = 0usize;
+    let mut draining = 0u32;
+    loop {
+        let op = match &mut src {
+            Source::Replay(v) => {
+                if step >= v.len() {
+                    break;
+                }
+                v[step].clone()
+            }
+            Source::Gen { g, nops, allow_forget, drain } => {
+                if step < *nops {
+                    g.next(&m, &ranges, *allow_forget)
+                } else if *drain {
+                    // drain phase: open the window, pick everything, ack everything
+                    draining += 1;
+                    if draining > 20_000 {
+                        break;
+                    }
+                    if m.max_data < m.written {
+                        Op::Extend(m.written)
+                    } else if m.lowest_offerable(usize::MAX).is_some() {
+                        Op::Pick { pred: Pred::Cap(g.size().max(1) * 8), flow: usize::MAX }
+                    } else if let Some(i) = m.col.iter().position(|c| *c == F) {
+                        // ack an earlier range that covers the lowest in-flight byte
+                        let i = i as u64;
+                        match ranges.iter().rev().find(|r| r.start <= i && i < r.end) {
+                            Some(r) => Op::Ack(r.start, r.end),
+                            None => break,
+                        }
+                    } else {
+                        break;
+                    }
+                } else {
+                    break;
+                }
+            }
+        };
+        ops.push(op.clone());
+        let r: Result<(), (String, String)> = (|| {
+            match op {
+                Op::Write(n) => {
+                    let data = content_bytes(cseed, m.written, n);
+                    if m.written + n as u64 > m.max_data {
+                        st.over_window_writes += 1;
+                    }
+                    vcore::panics::catch(|| buf.write(data)).map_err(|p| (format!("panic:{}", vcore::panics::short_location(&p.location)), format!("write panicked: {}", p.message)))?;
+                    cuts.insert(m.col.len() as u64);
+                    m.write(n);
+                }
+                Op::Extend(max) => {
+                    vcore::panics::catch(|| buf.extend(max)).map_err(|p| (format!("panic:{}", vcore::panics::short_location(&p.location)), format!("extend panicked: {}", p.message)))?;
+                    cuts.insert(m.col.len() as u64);
+                    m.extend(max);
+                }
+                Op::Forget(max) => {
+                    st.forgets += 1;
+                    vcore::panics::catch(|| {
+                        buf.forget_sent_state();
+                        if max > buf.max_data() {
+                            buf.extend(max);
+                        }
+                    })
+                    .map_err(|p| (format!("panic:{}", vcore::panics::short_location(&p.location)), format!("forget panicked: {}", p.message)))?;
+                    m.forget();
+                    if max > 0 {
+                        m.extend(max);
+                    }
+                    ranges.clear();
+                    cuts.clear();
+                }
+                Op::Pick { pred, flow } => {
+                    let exp = m.expect(&|o| pred.eval(o), flow);
+                    let got = vcore::panics::catch(|| buf.pick_up(|o| pred.eval(o), flow).map(|(r, f, d)| (r, f, collect(&d))).map_err(|s| format!("{s:?}")))
+                        .map_err(|p| (format!("panic:{}", vcore::panics::short_location(&p.location)), format!("pick_up panicked: {}; map: {}", p.message, m.shape_string())))?;
+                    if let Ok((r, ..)) = &got {
+                        if !r.is_empty() {
+                            ranges.push(r.clone());
+                        }
+                        cuts.insert(r.start);
+                        cuts.insert(r.end);
+                    }
+                    check_pick(&mut m, &exp, &got, &mut st, &cuts)?;
+                }
+                Op::Ack(a, b) => {
+                    let before = m.shape_string();
+                    vcore::panics::catch(|| buf.on_data_acked(&(a..b)))
+                        .map_err(|p| (format!("panic:{}", vcore::panics::short_location(&p.location)), format!("on_data_acked({a}..{b}) panicked: {}; map before: {before}", p.message)))?;
+                    m.ack(&(a..b), &mut st);
+                }
+                Op::Loss(a, b) => {
+                    let before = m.shape_string();
+                    vcore::panics::catch(|| buf.may_loss_data(&(a..b)))
+                        .map_err(|p| (format!("panic:{}", vcore::panics::short_location(&p.location)), format!("may_loss_data({a}..{b}) panicked: {}; map before: {before}", p.message)))?;
+                    m.loss(&(a..b), &mut st);
+                }
+                Op::Resend => {
+                    st.resends += 1;
+                    vcore::panics::catch(|| buf.resend_flighting()).map_err(|p| (format!("panic:{}", vcore::panics::short_location(&p.location)), format!("resend_flighting panicked: {}", p.message)))?;
+                    m.resend();
+                }
+                Op::Load { .. } => {}
+            }
+            check_observables(&m, &buf, &mut st)?;
+            Ok(())
+        })();
+        if let Err((clause, detail)) = r {
+            fail = Some((step, clause, detail));
+            break;
+        }
+        if m.all_rcvd() && m.written > 0 {
+            st.completions += 1;
+        }
+        if step < 400 {
+            let (runs, h) = m.pattern();
+            st.patterns.insert(h);
+            st.max_runs = st.max_runs.max(runs);
+        }
+        step += 1;
+    }
+    // a colour the buffer lost track of shows up as a pick divergence only when asked: probe at the end
+    if fail.is_none() {
+        if let Source::Gen { .. } = src {
+            // final probe: whatever is lost must be re-offered, lowest first, until nothing is left
+            let mut guard = 0;
+            while let Some(i) = m.col.iter().position(|c| *c == L) {
+                guard += 1;
+                if guard > 10_000 {
+                    break;
+                }
+                let op = Op::Pick { pred: Pred::Cap(1 << 20), flow: 0 };
+                ops.push(op);
+                let exp = m.expect(&|_| Some(1 << 20), 0);
+                let got = vcore::panics::catch(|| buf.pick_up(|_| Some(1 << 20), 0).map(|(r, f, d)| (r, f, collect(&d))).map_err(|s| format!("{s:?}")));
+                let res = match got {
+                    Ok(g) => {
+                        if let Ok((r, ..)) = &g {
+                            cuts.insert(r.start);
+                            cuts.insert(r.end);
+                        }
+                        check_pick(&mut m, &exp, &g, &mut st, &cuts).and_then(|_| check_observables(&m, &buf, &mut st))
+                    }
+                    Err(p) => Err((format!("panic:{}", vcore::panics::short_location(&p.location)), format!("pick_up panicked: {} (lost byte {i})", p.message))),
+                };
+                if let Err((clause, detail)) = res {
+                    fail = Some((ops.len() - 1, clause, detail));
+                    break;
+                }
+            }
+        }
+    }
+    Outcome { fail, ops, st }
+}
+
+// ------------------------------------------------------------------------------------------------
+// crypto leg
+// ------------------------------------------------------------------------------------------------
+
+pub(crate) mod target {
+    //! A bounded packet body that records the data frames written into it.
+    use bytes::{BufMut, Bytes, BytesMut, buf::UninitSlice};
+    use qbase::{
+        frame::{CryptoFrame, Frame, StreamFrame},
+        packet::RecordFrame,
+        util::ContinuousData,
+    };
+
+    pub enum Rec {
+        Crypto(CryptoFrame, Bytes),
+        Stream(StreamFrame, Bytes),
+        Other(String),
+    }
+
+    pub struct Target {
+        pub buf: BytesMut,
+        pub cap: usize,
+        pub frames: Vec<Rec>,
+    }
+
+    impl Target {
+        pub fn new(cap: usize) -> Self {
+            Target { buf: BytesMut::with_capacity(cap), cap, frames: vec![] }
+        }
+    }
+
+    unsafe impl BufMut for Target {
+        fn remaining_mut(&self) -> usize {
+            self.cap - self.buf.len()
+        }
+        unsafe fn advance_mut(&mut self, cnt: usize) {
+            assert!(cnt <= self.remaining_mut(), "packet overflow: advance {cnt} with {} left", self.remaining_mut());
+            unsafe { self.buf.advance_mut(cnt) }
+        }
+        fn chunk_mut(&mut self) -> &mut UninitSlice {
+            let rem = self.cap - self.buf.len();
+            if self.buf.capacity() - self.buf.len() < rem {
+                self.buf.reserve(rem);
+            }
+            let c = self.buf.chunk_mut();
+            let n = c.len().min(rem);
+            &mut c[..n]
+        }
+    }
+
+    impl<D: ContinuousData> RecordFrame<Frame<D>, D> for Target {
+        fn record_frame(&mut self, frame: &Frame<D>) {
+            self.frames.push(match frame {
+                Frame::Crypto(f, d) => Rec::Crypto(*f, d.to_bytes()),
+                Frame::Stream(f, d) => Rec::Stream(*f, d.to_bytes()),
+                other => Rec::Other(format!("{:?}", qbase::frame::GetFrameType::frame_type(other))),
+            });
+        }
+    }
+}
+
+fn noop_cx() -> Context<'static> {
+    Context::from_waker(futures::task::noop_waker_ref())
+}
+
+/// One history on a fresh CryptoStream (writer + outgoing).
+fn run_crypto(cseed: u64, mut src: Source) -> Outcome {
+    use target::{Rec, Target};
+    let cs = CryptoStream::new(Default::default());
+    let mut writer = cs.writer();
+    let outgoing = cs.outgoing();
+    let mut m = Model::new(cseed, qbase::varint::VARINT_MAX);
+    let mut st = Stats::default();
+    let mut ops: Vec<Op> = vec![];
+    let mut frames: Vec<Range<u64>> = vec![];
+    let mut cuts: BTreeSet<u64> = BTreeSet::new();
+    let mut fail: Option<Fail> = None;
+    let mut step = 0usize;
+    let mut draining = 0;
+    loop {
+        let op = match &mut src {
+            Source::Replay(v) => {
+                if step >= v.len() {
+                    break;
+                }
+                v[step].clone()
+            }
+            Source::Gen { g, nops, drain, .. } => {
+                if step < *nops {
+                    let k = g.rng.below(100);
+                    if k < 14 && m.written < g.total_target {
+                        Op::Write(g.size().max(1))
+                    } else if k < 55 {
+                        let cap = match g.rng.below(8) {
+                            0 => g.rng.range(0, 6) as usize,
+                            1 => 1200,
+                            2 => g.size() * 3 + 8,
+                            _ => g.size() + g.rng.range(3, 8) as usize,
+                        };
+                        Op::Load { cap, force: g.rng.chance(1, 10) }
+                    } else if frames.is_empty() {
+                        Op::Write(g.size().max(1))
+                    } else if k < 76 {
+                        let r = &frames[g.pick_idx(frames.len())];
+                        Op::Ack(r.start, r.end)
+                    } else {
+                        let r = &frames[g.pick_idx(frames.len())];
+                        Op::Loss(r.start, r.end)
+                    }
+                } else if *drain {
+                    draining += 1;
+                    if draining > 20_000 {
+                        break;
+                    }
+                    if m.lowest_offerable(usize::MAX).is_some() {
+                        Op::Load { cap: 1200, force: false }
+                    } else if let Some(i) = m.col.iter().position(|c| *c == F) {
+                        let i = i as u64;
+                        match frames.iter().rev().find(|r| r.start <= i && i < r.end) {
+                            Some(r) => Op::Ack(r.start, r.end),
+                            None => break,
+                        }
+                    } else {
+                        break;
+                    }
+                } else {
+                    break;
+                }
+            }
+        };
+        ops.push(op.clone());
+        let r: Result<(), (String, String)> = (|| {
+            let pmap = |what: &str, p: vcore::panics::PanicRecord| (format!("panic:{}", vcore::panics::short_location(&p.location)), format!("{what} panicked: {}", p.message));
+            match op {
+                Op::Write(n) => {
+                    let data = content_bytes(cseed, m.written, n);
+                    let res = vcore::panics::catch(|| Pin::new(&mut writer).poll_write(&mut noop_cx(), &data)).map_err(|p| pmap("poll_write", p))?;
+                    match res {
+                        Poll::Ready(Ok(k)) if k == n => {}
+                        other => return Err(("crypto-write".into(), format!("poll_write({n}) returned {other:?}"))),
+                    }
+                    cuts.insert(m.col.len() as u64);
+                    m.write(n);
+                }
+                Op::Load { cap, force } => {
+                    let mut t = Target::new(cap);
+                    let res = vcore::panics::catch(|| outgoing.try_load_data_into(&mut t, force)).map_err(|p| pmap("try_load_data_into", p))?;
+                    if force {
+                        st.resends += 1;
+                        m.resend();
+                    }
+                    if t.buf.len() > cap {
+                        return Err(("crypto-overflow".into(), format!("wrote {} bytes into a {cap}-byte packet", t.buf.len())));
+                    }
+                    let mut room = cap;
+                    let n = t.frames.len();
+                    for (k, f) in t.frames.iter().enumerate() {
+                        let (a, b, d) = match f {
+                            Rec::Crypto(f, d) => (f.offset(), f.offset() + f.len(), d.to_vec()),
+                            _ => return Err(("crypto-foreign-frame".into(), "non-CRYPTO frame recorded".into())),
+                        };
+                        if b > a {
+                            frames.push(a..b);
+                        }
+                        cuts.insert(a);
+                        cuts.insert(b);
+                        let r = room;
+                        let exp = m.expect(&|o| CryptoFrame::estimate_max_capacity(r, o), usize::MAX);
+                        let fresh = matches!(exp, Expect::Take { col, .. } if col == P);
+                        check_pick(&mut m, &exp, &Ok((a..b, fresh, d)), &mut st, &cuts)
+                            .map_err(|(c, d)| (c, format!("load(cap {cap}, force {force}) frame #{k} with {room} bytes of room: {d}")))?;
+                        let sz = 1 + varint_len(a) + varint_len(b - a) + (b - a) as usize;
+                        if sz > room {
+                            return Err(("crypto-overflow".into(), format!("frame {a}..{b} needs {sz} bytes, {room} were left")));
+                        }
+                        room -= sz;
+                    }
+                    if room != bytes::BufMut::remaining_mut(&t) {
+                        return Err(("harness".into(), format!("frame size bookkeeping: {room} vs {}", bytes::BufMut::remaining_mut(&t))));
+                    }
+                    // whatever is still offerable must not fit any more
+                    let r = room;
+                    if let Expect::Take { start, end, col } = m.expect(&|o| CryptoFrame::estimate_max_capacity(r, o), usize::MAX) {
+                        if end > start {
+                            return Err((
+                                format!("pick-missed:{}", CNAME[col as usize]),
+                                format!("load(cap {cap}, force {force}) stopped after {n} frames with {room} bytes of room although bytes {start}..{end} are {} and fit; map: {}", CNAME[col as usize], m.shape_string()),
+                            ));
+                        }
+                    }
+                    if res.is_ok() != (n > 0) {
+                        return Err(("crypto-load-result".into(), format!("try_load_data_into returned {res:?} with {n} frames written")));
+                    }
+                    if n == 0 {
+                        st.picks_err += 1;
+                    }
+                }
+                Op::Ack(a, b) => {
+                    let f = CryptoFrame::new(VarInt::from_u64(a).unwrap(), VarInt::from_u64(b - a).unwrap());
+                    vcore::panics::catch(|| outgoing.on_data_acked(&f)).map_err(|p| pmap("on_data_acked", p))?;
+                    m.ack(&(a..b), &mut st);
+                }
+                Op::Loss(a, b) => {
+                    let f = CryptoFrame::new(VarInt::from_u64(a).unwrap(), VarInt::from_u64(b - a).unwrap());
+                    vcore::panics::catch(|| outgoing.may_loss_data(&f)).map_err(|p| pmap("may_loss_data", p))?;
+                    m.loss(&(a..b), &mut st);
+                }
+                _ => {}
+            }
+            // completion: poll_flush is Ready exactly when everything written is acknowledged
+            st.step_checks += 1;
+            let fl = vcore::panics::catch(|| Pin::new(&mut writer).poll_flush(&mut noop_cx())).map_err(|p| pmap("poll_flush", p))?;
+            let ready = matches!(fl, Poll::Ready(Ok(())));
+            if ready != m.all_rcvd() {
+                return Err((
+                    if ready { "completion:early".to_string() } else { "completion:missed".to_string() },
+                    format!("crypto poll_flush ready = {ready}, model all-acknowledged = {}; map: {}", m.all_rcvd(), m.shape_string()),
+                ));
+            }
+            Ok(())
+        })();
+        if let Err((clause, detail)) = r {
+            fail = Some((step, clause, detail));
+            break;
+        }
+        if m.all_rcvd() && m.written > 0 {
+            st.completions += 1;
+        }
+        if step < 400 {
+            let (runs, h) = m.pattern();
+            st.patterns.insert(h);
+            st.max_runs = st.max_runs.max(runs);
+        }
+        step += 1;
+    }
+    Outcome { fail, ops, st }
+}
+
+// ------------------------------------------------------------------------------------------------
+
+fn merge_stats(rep: &mut Report, leg: &str, st: &Stats) {
+    rep.add(&format!("{leg}_picks_ok"), st.picks_ok);
+    rep.add(&format!("{leg}_picks_refused"), st.picks_err);
+    rep.add(&format!("{leg}_fresh_bytes"), st.fresh_bytes);
+    rep.add(&format!("{leg}_reoffered_bytes"), st.reoffered_bytes);
+    rep.add(&format!("{leg}_acks"), st.acks);
+    rep.add(&format!("{leg}_losses"), st.losses);
+    rep.add(&format!("{leg}_ack_after_loss"), st.ack_after_loss);
+    rep.add(&format!("{leg}_loss_after_ack"), st.loss_after_ack);
+    rep.add(&format!("{leg}_repeated_ack"), st.repeated_ack);
+    rep.add(&format!("{leg}_mixed_colour_range_ops"), st.mixed_range_ops);
+    rep.add(&format!("{leg}_completions_observed"), st.completions);
+    rep.add(&format!("{leg}_resend_flighting"), st.resends);
+    rep.add(&format!("{leg}_forget_sent_state"), st.forgets);
+    rep.add(&format!("{leg}_writes_beyond_window"), st.over_window_writes);
+    rep.add(&format!("{leg}_short_offers_at_old_boundary"), st.short_at_old_boundary);
+    rep.add(&format!("{leg}_step_checks"), st.step_checks);
+    rep.max("max_colour_runs", st.max_runs);
+    for h in &st.patterns {
+        rep.set("colour_patterns", *h);
+    }
+    for h in &st.contexts {
+        rep.set("ack_loss_contexts", *h);
+    }
+}
+
+fn report(rep: &mut Report, leg: &str, cseed: u64, cap0: u64, o: &Outcome) {
+    if let Some((step, clause, detail)) = &o.fail {
+        let sig = if clause == "harness" { None } else { Some(format!("C09.{clause}")) };
+        let replay = json!({"kind": "c09", "leg": leg, "cseed": cseed, "cap0": cap0,
+            "ops": o.ops.iter().map(|x| x.to_json()).collect::<Vec<_>>()});
+        match sig {
+            Some(sig) => rep.violation(sig, format!("{leg} leg, step {step}: {detail}"), replay),
+            None => rep.inconclusive(format!("{leg} leg harness trouble at step {step}: {detail}")),
+        }
+    }
+}
+
+fn hist_hash(leg: &str, cap0: u64, ops: &[Op]) -> u64 {
+    let mut h = vcore::fnv_str(leg) ^ cap0.wrapping_mul(0x9e3779b97f4a7c15);
+    for o in ops {
+        o.hash_into(&mut h);
+    }
+    h
+}
+
+pub fn run(args: &Args, rep: &mut Report) {
+    rep.rule = "history = op sequence (write/extend/pick_up/ack/loss/resend) on one send buffer (SendBuf, crypto stream or \
+                data stream); distinct = distinct (leg, initial window, op sequence) hashes; non-trivial = at least one \
+                byte was re-offered after a loss report AND at least one ack/loss report hit a range holding more than one colour"
+        .into();
+    if let Some(path) = args.get("replay") {
+        let v: Value = serde_json::from_str(&std::fs::read_to_string(path).unwrap()).unwrap();
+        let v = if v.get("replay").is_some() { v["replay"].clone() } else { v };
+        let leg = v["leg"].as_str().unwrap_or("sndbuf").to_string();
+        rep.evaluations += 1;
+        if leg == "stream" {
+            crate::c09_stream::replay(rep, &v);
+            return;
+        }
+        let ops: Vec<Op> = v["ops"].as_array().unwrap().iter().map(Op::from_json).collect();
+        let cseed = v["cseed"].as_u64().unwrap();
+        let cap0 = v["cap0"].as_u64().unwrap_or(0);
+        match leg.as_str() {
+            "sndbuf" => {
+                let o = run_sndbuf(cseed, cap0, Source::Replay(&ops));
+                report(rep, "sndbuf", cseed, cap0, &o);
+            }
+            "crypto" => {
+                let o = run_crypto(cseed, Source::Replay(&ops));
+                report(rep, "crypto", cseed, cap0, &o);
+            }
+            other => rep.inconclusive(format!("unknown leg {other}")),
+        }
+        return;
+    }
+    let thorough = args.get("tier") == Some("thorough");
+    let shard = args.u64("shard", 0);
+    let n = args.budget(if thorough { 60_000 } else { 2_500 });
+    let mut rng = Rng::new(args.seed() ^ 0xc09).fork(shard);
+    for i in 0..n {
+        let cseed = rng.next_u64();
+        let leg = match i % 10 {
+            0..=5 => "sndbuf",
+            6 | 7 => "crypto",
+            _ => "stream",
+        };
+        let g = Gen::new(rng.fork(i));
+        let nops = match rng.below(4) {
+            0 => rng.range(5, 30),
+            1 | 2 => rng.range(30, 80),
+            _ => rng.range(80, 200),
+        } as usize;
+        let drain = rng.bool();
+        match leg {
+            "sndbuf" => {
+                let cap0 = match rng.below(5) {
+                    0 => 0,
+                    1 => g.unit as u64,
+                    2 => g.total_target / 2,
+                    3 => g.total_target,
+                    _ => 1 << 20,
+                };
+                let allow_forget = rng.chance(1, 8);
+                let o = run_sndbuf(cseed, cap0, Source::Gen { g, nops, allow_forget, drain });
+                rep.evaluations += 1;
+                merge_stats(rep, "sndbuf", &o.st);
+                if o.st.reoffered_bytes > 0 && o.st.mixed_range_ops > 0 {
+                    rep.distinct(hist_hash(leg, cap0, &o.ops));
+                }
+                if i < 2 {
+                    rep.sample(json!({"leg": leg, "cap0": cap0, "n_ops": o.ops.len(), "first_ops": o.ops.iter().take(14).map(|x| x.to_json()).collect::<Vec<_>>()}));
+                }
+                report(rep, leg, cseed, cap0, &o);
+            }
+            "crypto" => {
+                let o = run_crypto(cseed, Source::Gen { g, nops, allow_forget: false, drain });
+                rep.evaluations += 1;
+                merge_stats(rep, "crypto", &o.st);
+                if o.st.reoffered_bytes > 0 && o.st.mixed_range_ops > 0 {
+                    rep.distinct(hist_hash(leg, 0, &o.ops));
+                }
+                if i % 10 == 6 && i < 20 {
+                    rep.sample(json!({"leg": leg, "n_ops": o.ops.len(), "first_ops": o.ops.iter().take(14).map(|x| x.to_json()).collect::<Vec<_>>()}));
+                }
+                report(rep, leg, cseed, 0, &o);
+            }
+            _ => crate::c09_stream::one(rep, cseed, g, nops, drain, i < 20),
+        }
+    }
+    rep.add("histories", n);
 }
